@@ -19,12 +19,12 @@ theorem new_ok (A : View α) (N : Nat) (hN : 0 < N) : new A N = .ok (s0 A N) := 
 
 @[simp] def abs (A : View α) (s : State α A.σ) : A.σ × VstState α := (s.view, { last := s.last, wo := { q := s.welford_online.q_vals, mean := s.welford_online.mean, m2 := s.welford_online.m2, count := s.welford_online.count } })
 
-theorem upd_eq (A : View α)  (s : State α A.σ) (x : α) (htot : ∀ a b : α, ¬ a ≤ b → b ≤ a) (hrefl : ∀ a : α, a ≤ a) :
+theorem upd_eq (A : View α)  (s : State α A.σ) (x : α) (htot : ∀ a b : α, ¬ a ≤ b → b ≤ a) (hrefl : ∀ a : α, a ≤ a)  :
     (update A s x).map (abs A) = (wrap A (vsctCoreU s.welford_online.window_len)).upd (abs A s) x := by
   simp only [update, wrap, mapV, binop, vsctCoreU, welfordCoreU, welfordStep, welfordOut, welfordInit, WelfordState.add, WelfordState.remove, WelfordState.variance, SF.Gen.WelfordOnline.update, SF.Gen.WelfordOnline.last, SF.Gen.WelfordOnline.update_stats_add, SF.Gen.WelfordOnline.update_stats_remove, SF.Gen.WelfordOnline.variance, echoV, abs]; gen_tie
-theorem upd_cfg (A : View α) (s s' : State α A.σ) (x : α) : update A s x = .ok s' → s'.welford_online.window_len = s.welford_online.window_len := by
+theorem upd_cfg (A : View α) (s s' : State α A.σ) (x : α)  : update A s x = .ok s' → s'.welford_online.window_len = s.welford_online.window_len := by
   simp only [update, vsctCoreU, welfordCoreU, welfordStep, welfordOut, welfordInit, WelfordState.add, WelfordState.remove, WelfordState.variance, SF.Gen.WelfordOnline.update, SF.Gen.WelfordOnline.last, SF.Gen.WelfordOnline.update_stats_add, SF.Gen.WelfordOnline.update_stats_remove, SF.Gen.WelfordOnline.variance, echoV]; gen_tie
-theorem last_eq (A : View α)  (s : State α A.σ) (htot : ∀ a b : α, ¬ a ≤ b → b ≤ a) (hrefl : ∀ a : α, a ≤ a) : last A s = (wrap A (vsctCoreU s.welford_online.window_len)).last (abs A s) := by
+theorem last_eq (A : View α)  (s : State α A.σ) (htot : ∀ a b : α, ¬ a ≤ b → b ≤ a) (hrefl : ∀ a : α, a ≤ a)  : last A s = (wrap A (vsctCoreU s.welford_online.window_len)).last (abs A s) := by
   simp only [last, wrap, mapV, binop, vsctCoreU, welfordCoreU, welfordStep, welfordOut, welfordInit, WelfordState.add, WelfordState.remove, WelfordState.variance, SF.Gen.WelfordOnline.update, SF.Gen.WelfordOnline.last, SF.Gen.WelfordOnline.update_stats_add, SF.Gen.WelfordOnline.update_stats_remove, SF.Gen.WelfordOnline.variance, echoV, abs]; gen_tie
 
 def sim (A : View α) (N : Nat) (htot : ∀ a b : α, ¬ a ≤ b → b ≤ a) (hrefl : ∀ a : α, a ≤ a) : Sim (mkView (s0 A N) (update A) (last A)) (wrap A (vsctCoreU N)) where
@@ -34,15 +34,15 @@ def sim (A : View α) (N : Nat) (htot : ∀ a b : α, ¬ a ≤ b → b ≤ a) (h
   init_abs := by rfl
   upd := fun (s : State α A.σ) x hs => by
     have h0 : s.welford_online.window_len = N := hs
-    have := upd_eq A s x htot hrefl 
+    have := upd_eq A s x htot hrefl  
     (try rw [h0] at this); exact this
   upd_cfg := fun (s : State α A.σ) x s' hs h => by
     have h0 : s.welford_online.window_len = N := hs
-    have := upd_cfg A s s' x h
+    have := upd_cfg A s s' x  h
     simp_all
   last := fun (s : State α A.σ) hs => by
     have h0 : s.welford_online.window_len = N := hs
-    have := last_eq A s htot hrefl 
+    have := last_eq A s htot hrefl  
     (try rw [h0] at this); exact this
 
 /-- the Rust text of `Vsct`, as translated, and the model agree on every input: same answers, same panics -/
